@@ -1521,7 +1521,8 @@ def pretty_float(value, ctx):
     elif math.isnan(value):
         return pretty_call_alt(ctx, constructor, args=('nan', ))
 
-    doc = annotate(Token.NUMBER_FLOAT, repr(value))
+    # Subclasses (e.g. with a custom __repr__) still get the float literal.
+    doc = annotate(Token.NUMBER_FLOAT, float.__repr__(value))
     if constructor is float:
         return doc
 
@@ -1534,7 +1535,8 @@ def pretty_int(value, ctx):
     if ctx.depth_left == 0:
         return pretty_call_alt(ctx, constructor, args=(..., ))
 
-    doc = annotate(Token.NUMBER_INT, repr(value))
+    # Subclasses (e.g. IntEnum members) still get the int literal.
+    doc = annotate(Token.NUMBER_INT, int.__repr__(value))
     if constructor is int:
         return doc
 
@@ -1604,7 +1606,9 @@ def determine_quote_strategy(s):
 
 
 def escape_str_for_quote(use_quote, s):
-    escaped_with_quotes = repr(s)
+    # Subclasses may override __repr__; we need the literal of the base type.
+    base_type = str if isinstance(s, str) else bytes
+    escaped_with_quotes = base_type.__repr__(s)
     repr_used_quote = escaped_with_quotes[-1]
 
     # string may have a prefix
